@@ -17,6 +17,7 @@ import (
 	"github.com/mithrandie/csvq/lib/option"
 	"github.com/mithrandie/csvq/lib/parser"
 	"github.com/mithrandie/csvq/lib/value"
+	"github.com/mithrandie/csvq/lib/vhook"
 
 	"github.com/mithrandie/go-text"
 	"github.com/mithrandie/go-text/csv"
@@ -513,6 +514,7 @@ func loadObjectFromStdin(
 
 	fileInfo := NewStdinFileInfo(stdin.String(), options, scope.Tx.Flags.ExportOptions)
 
+	vhook.AwaitMutex("viewLoading", scope.Tx.viewLoadingMutex)
 	scope.Tx.viewLoadingMutex.Lock()
 	defer scope.Tx.viewLoadingMutex.Unlock()
 
@@ -623,6 +625,7 @@ func loadHttpObject(
 	tableName parser.Identifier,
 	options option.ImportOptions,
 ) (*View, error) {
+	vhook.AwaitMutex("viewLoading", scope.Tx.viewLoadingMutex)
 	scope.Tx.viewLoadingMutex.Lock()
 
 	urlResource, ok := scope.Tx.UrlCache[httpObject.URL]
@@ -674,6 +677,7 @@ func loadInlineObjectFromFile(
 	tableName parser.Identifier,
 	options option.ImportOptions,
 ) (view *View, err error) {
+	vhook.AwaitMutex("viewLoading", scope.Tx.viewLoadingMutex)
 	scope.Tx.viewLoadingMutex.Lock()
 	defer scope.Tx.viewLoadingMutex.Unlock()
 
@@ -880,6 +884,7 @@ func cacheViewFromFile(
 	forUpdate bool,
 	options option.ImportOptions,
 ) (filePath string, err error) {
+	vhook.AwaitMutex("viewLoading", scope.Tx.viewLoadingMutex)
 	scope.Tx.viewLoadingMutex.Lock()
 	defer scope.Tx.viewLoadingMutex.Unlock()
 
@@ -1225,8 +1230,10 @@ func readRecordSet(ctx context.Context, reader RecordReader, fileSize int64) (Re
 			wg.Done()
 		}()
 
+		vhook.Yield("load.cons.start", 0)
 		for {
 			row, ok := <-rowch
+			vhook.Yield("load.cons.recv", 0)
 			if !ok {
 				break
 			}
@@ -1265,9 +1272,11 @@ func readRecordSet(ctx context.Context, reader RecordReader, fileSize int64) (Re
 			wg.Done()
 		}()
 
+		vhook.Yield("load.prod.start", 0)
 		i := 0
 
 		for {
+			vhook.Yield("load.prod.row", 0)
 			if i&15 == 0 && ctx.Err() != nil {
 				err = ConvertContextError(ctx.Err())
 				break
@@ -1295,6 +1304,7 @@ func readRecordSet(ctx context.Context, reader RecordReader, fileSize int64) (Re
 				// Row data sent.
 			}
 
+			vhook.Yield("load.prod.sent", 0)
 			if panicOccurred {
 				break
 			}
@@ -1368,8 +1378,10 @@ func loadViewFromJsonLinesFile(ctx context.Context, flags *option.Flags, fp *fil
 			wg.Done()
 		}()
 
+		vhook.Yield("load.cons.start", 0)
 		for {
 			row, ok := <-rowch
+			vhook.Yield("load.cons.recv", 0)
 			if !ok {
 				break
 			}
@@ -1406,8 +1418,10 @@ func loadViewFromJsonLinesFile(ctx context.Context, flags *option.Flags, fp *fil
 			wg.Done()
 		}()
 
+		vhook.Yield("load.prod.start", 0)
 		i := 0
 		for {
+			vhook.Yield("load.prod.row", 0)
 			if i&15 == 0 && ctx.Err() != nil {
 				err = ConvertContextError(ctx.Err())
 				break
@@ -1461,6 +1475,7 @@ func loadViewFromJsonLinesFile(ctx context.Context, flags *option.Flags, fp *fil
 				// Row data sent.
 			}
 
+			vhook.Yield("load.prod.sent", 0)
 			if panicOccurred {
 				break
 			}
